@@ -37,7 +37,7 @@ func (e *Engine) RunRoot(fn *ssa.Function) (err error) {
 	e.resetSymbolic()
 	e.rootKey = shortKey(funcKey(fn))
 	e.rootContract = e.contractFor(fn)
-	e.tm.noStrLen = e.rootContract != nil && e.rootContract.Flags["nostrlen"] != ""
+	e.tm.noStrLen = e.rootContract != nil && (e.rootContract.Flags["nostrlen"] != "" || e.rootContract.Flags["opaque_strings"] != "")
 	e.u.abstractStrings = e.rootContract != nil && e.rootContract.Flags["opaque_strings"] != ""
 	e.rootInputs = nil
 	e.registerReplayTarget(fn, e.modDir)
@@ -463,6 +463,10 @@ func (e *Engine) step(s *State, fr *Frame, in ssa.Instruction) ([]*State, bool) 
 		if c.S == "false" {
 			return e.transfer(s, fr, fr.block.Succs[1], in)
 		}
+		mergeN0, mergeDepth, mergeBlk := 0, len(s.frames), fr.block // merge_coord.go
+		if s.assumes != nil {
+			mergeN0 = s.assumes.n
+		}
 		s2 := s.fork()
 		s.assume(c)
 		s.trace = append(s.trace, fmt.Sprintf("%s:T", posString(e.fset, x.Cond.Pos())))
@@ -475,6 +479,11 @@ func (e *Engine) step(s *State, fr *Frame, in ssa.Instruction) ([]*State, bool) 
 		if e.feasible(s2) {
 			fr2 := s2.top()
 			out = append(out, e.transferAll(s2, fr2, fr2.block.Succs[1], in)...)
+		}
+		if e.mergeOn() { // merge_coord.go: opt-in path merging at the join of this branch
+			if j := e.mergeTarget(mergeBlk.Parent(), mergeBlk); j != nil {
+				return e.execIfMerged(mergeN0, mergeDepth, mergeBlk.Parent(), j, out), true
+			}
 		}
 		return out, true
 	case *ssa.Return:
